@@ -24,7 +24,10 @@ package snapcache_test
 //     the upstream InSync call that this status can stem from.
 
 import (
+	"bytes"
 	"context"
+	"encoding/gob"
+	"errors"
 	"fmt"
 	"os"
 	"reflect"
@@ -34,6 +37,7 @@ import (
 	"testing"
 	"time"
 
+	"github.com/golang/snappy"
 	metav1 "k8s.io/apimachinery/pkg/apis/meta/v1"
 	"pgregory.net/rapid"
 
@@ -43,6 +47,7 @@ import (
 	"github.com/projectcalico/calico/libcalico-go/lib/backend/model"
 	"github.com/projectcalico/calico/typha/pkg/snapcache"
 	"github.com/projectcalico/calico/typha/pkg/syncproto"
+	"github.com/projectcalico/calico/typha/pkg/syncserver"
 	"github.com/projectcalico/calico/verifkit/ev"
 )
 
@@ -166,6 +171,7 @@ type c24Client struct {
 	lo      map[int]int // per key: lower bound of the upstream position the client has reached
 	loDel   map[int]bool
 	seen    []string
+	binary  bool // joined through the pre-calculated binary snapshot
 }
 
 type c24Crumb struct {
@@ -173,6 +179,10 @@ type c24Crumb struct {
 	round  int
 	kvs    []c24Obs
 	deltas []c24Obs
+	// For crumbs whose status is InSync: the in-sync bound, fixed when the crumb is collected (a
+	// client may get to this crumb later, e.g. one that joined through a cached binary snapshot).
+	inSyncP       int
+	inSyncNontriv bool
 }
 
 type c24Case struct {
@@ -202,6 +212,9 @@ type c24Case struct {
 	inSyncRuleEvaluated int
 	inSyncRuleNontriv   int
 	sentinelsSeen       int
+	binSnaps            *syncserver.SnappySnapshotCache
+	binSnapOutstanding  bool // a binary snapshot was requested since the newest crumb was published
+	abortedSinceCrumb   bool // ... and its first requester was torn down
 	classes             map[string]bool
 }
 
@@ -521,7 +534,7 @@ func (c *c24Case) inSyncBound(cc *c24Crumb) int {
 }
 
 func (c *c24Case) checkInSync(cl *c24Client, cc *c24Crumb) {
-	p := c.inSyncBound(cc)
+	p := cc.inSyncP
 	c.inSyncRuleEvaluated++
 	nontriv := false
 	for idx := range c24Keys {
@@ -535,7 +548,7 @@ func (c *c24Case) checkInSync(cl *c24Client, cc *c24Crumb) {
 		if last == nil {
 			continue
 		}
-		if c.statusBeforeRound != api.InSync {
+		if cc.inSyncNontriv {
 			nontriv = true
 		}
 		// The key reached the state it had at the InSync call at position `need`: the start of the
@@ -575,6 +588,10 @@ func (c *c24Case) checkInSync(cl *c24Client, cc *c24Crumb) {
 }
 
 func (c *c24Case) advanceClients(cc *c24Crumb) {
+	if cc.crumb.SyncStatus == api.InSync {
+		cc.inSyncP = c.inSyncBound(cc)
+		cc.inSyncNontriv = c.statusBeforeRound != api.InSync
+	}
 	for _, cl := range c.clients {
 		for _, o := range cc.deltas {
 			c.apply(cl, o, cc.crumb.SequenceNumber)
@@ -589,6 +606,129 @@ func (c *c24Case) advanceClients(cc *c24Crumb) {
 		c.checkInSync(cl, cc)
 	}
 	c.clients = append(c.clients, cl)
+}
+
+// ---- joining through the server's pre-calculated (shared, cached) binary snapshot -------------------
+
+type c24NoDeadline struct{}
+
+func (c24NoDeadline) SetWriteDeadline(time.Time) error { return nil }
+
+// c24AbortingWriter stands for a connection that dies while the snapshot is being written to it: the
+// n-th Write cancels the connection's context and fails.
+type c24AbortingWriter struct {
+	n      int
+	cancel context.CancelFunc
+}
+
+func (w *c24AbortingWriter) Write(p []byte) (int, error) {
+	w.n--
+	if w.n <= 0 {
+		w.cancel()
+		return 0, errors.New("connection reset by peer (injected)")
+	}
+	return len(p), nil
+}
+
+// binaryJoin does what syncserver's connection.handle does for a client that supports compression:
+// SendSnapshot on the shared SnappySnapshotCache, with that connection's context.  kind: "healthy",
+// "deadBefore" (the connection's context is already cancelled when the snapshot is requested),
+// "diesWriting" (the connection dies on its first or second write).  A healthy joiner decodes the
+// stream like syncclient does, takes the crumb SendSnapshot returned as its position, is told that
+// crumb's status and then follows every later crumb; it must hold the server's view (the cache is
+// quiescent whenever this is called).
+func (c *c24Case) binaryJoin(t *rapid.T, kind string) {
+	ctx, cancel := context.WithCancel(context.Background())
+	defer cancel()
+	c.binSnapOutstanding = true
+	switch kind {
+	case "deadBefore":
+		cancel()
+		_, err := c.binSnaps.SendSnapshot(ctx, &bytes.Buffer{}, c24NoDeadline{})
+		c.hist("   binary-snapshot join by a connection that is already dead -> %v", err)
+		c.abortedSinceCrumb = true
+		return
+	case "diesWriting":
+		w := &c24AbortingWriter{n: rapid.IntRange(1, 2).Draw(t, "diesAtWrite"), cancel: cancel}
+		_, err := c.binSnaps.SendSnapshot(ctx, w, c24NoDeadline{})
+		c.hist("   binary-snapshot join by a connection that dies while being sent the snapshot -> %v", err)
+		if err != nil {
+			c.abortedSinceCrumb = true
+		}
+		return
+	}
+	var buf bytes.Buffer
+	crumb, err := c.binSnaps.SendSnapshot(ctx, &buf, c24NoDeadline{})
+	if err != nil {
+		c.fail("SendSnapshot to a healthy connection failed: %v", err)
+	}
+	// Decode: a fresh snappy stream of gob-encoded envelopes, ending with MsgDecoderRestart.
+	dec := gob.NewDecoder(snappy.NewReader(&buf))
+	var obs []c24Obs
+	ended := false
+	for !ended {
+		var env syncproto.Envelope
+		if err := dec.Decode(&env); err != nil {
+			c.fail("binary snapshot for crumb %d does not decode: %v", crumb.SequenceNumber, err)
+		}
+		switch m := env.Message.(type) {
+		case syncproto.MsgKVs:
+			for _, su := range m.KVs {
+				obs = append(obs, c.decode(su, fmt.Sprintf("binary snapshot of crumb %d", crumb.SequenceNumber)))
+			}
+		case syncproto.MsgDecoderRestart:
+			ended = true
+		default:
+			c.fail("binary snapshot contains unexpected message %T", env.Message)
+		}
+	}
+	at := -1
+	for i, cc := range c.crumbs {
+		if cc.crumb == crumb {
+			at = i
+		}
+	}
+	if at < 0 {
+		c.fail("SendSnapshot returned crumb %d which is not one the cache published", crumb.SequenceNumber)
+	}
+	if c.abortedSinceCrumb {
+		c.classes["binary-snapshot-join-after-aborted-requester"] = true
+	}
+	if at < len(c.crumbs)-1 {
+		c.classes["binary-snapshot-older-than-current-crumb"] = true
+	}
+	c.classes["binary-snapshot-join"] = true
+	c.hist("   binary-snapshot join: snapshot of crumb %d = %v", crumb.SequenceNumber, obs)
+	cl := c.join(&c24Crumb{crumb: crumb, kvs: obs})
+	cl.binary = true
+	if crumb.SyncStatus == api.InSync {
+		c.checkInSync(cl, c.crumbs[at])
+	}
+	for _, cc := range c.crumbs[at+1:] {
+		for _, o := range cc.deltas {
+			c.apply(cl, o, cc.crumb.SequenceNumber)
+		}
+		if cc.crumb.SyncStatus == api.InSync {
+			c.checkInSync(cl, cc)
+		}
+	}
+	c.clients = append(c.clients, cl)
+	if got, want := c24FmtView(cl.view), c24FmtView(c.model); got != want {
+		c.fail("a client that joined through the server's binary snapshot (of crumb %d) and read up to the current crumb holds %s but the server's current view is %s",
+			crumb.SequenceNumber, got, want)
+	}
+}
+
+// binaryJoins runs a generated burst of joins at a quiescent point.
+func (c *c24Case) binaryJoins(t *rapid.T) string {
+	n := rapid.IntRange(0, 3).Draw(t, "binaryJoins")
+	rs := ""
+	for i := 0; i < n; i++ {
+		kind := rapid.SampledFrom([]string{"healthy", "healthy", "deadBefore", "diesWriting"}).Draw(t, "joinKind")
+		c.binaryJoin(t, kind)
+		rs += kind[:1]
+	}
+	return rs
 }
 
 func c24FmtView(m map[int]int) string {
@@ -608,8 +748,12 @@ func (c *c24Case) checkConverged() {
 	want := c24FmtView(c.model)
 	for _, cl := range c.clients {
 		if got := c24FmtView(cl.view); got != want {
-			c.fail("after round %d (cache quiescent) the client that joined at crumb %d holds %s but the server's current view is %s",
-				c.round, cl.joinSeq, got, want)
+			how := ""
+			if cl.binary {
+				how = " through the server's binary snapshot"
+			}
+			c.fail("after round %d (cache quiescent) the client that joined at crumb %d%s holds %s but the server's current view is %s",
+				c.round, cl.joinSeq, how, got, want)
 		}
 	}
 }
@@ -648,8 +792,17 @@ func TestVerifC24SnapCache(t *testing.T) {
 			c.classes["live-mode"] = true
 		}
 		shape := []string{fmt.Sprintf("m%v/b%d", live, maxBatch)}
+		// The server's shared pre-calculated snapshot.  Validity 1ms: a cached snapshot is dropped
+		// once that has elapsed AND a newer crumb exists, so between two crumbs it is reused
+		// deterministically.
+		c.binSnaps = syncserver.NewSnappySnapCache("c24", c.cache, time.Millisecond, 10*time.Second)
+		if rs := c.binaryJoins(t); rs != "" {
+			shape = append(shape, "J"+rs)
+		}
 		rounds := rapid.IntRange(1, 6).Draw(t, "rounds")
-		for r := 1; r <= rounds; r++ {
+		// (An extra, empty round at the end publishes one more crumb if a binary snapshot is still
+		// cached, so that its expiry goroutine can finish.)
+		for r := 1; r <= rounds || c.binSnapOutstanding; r++ {
 			c.round = r
 			c.statusBeforeRound = c.lastStatus
 			c.statusBeforeAtPos = c.lastStatusAtPos
@@ -660,7 +813,10 @@ func TestVerifC24SnapCache(t *testing.T) {
 			if live {
 				maxItems = 8
 			}
-			nItems := rapid.IntRange(0, maxItems).Draw(t, "items")
+			nItems := 0
+			if r <= rounds {
+				nItems = rapid.IntRange(0, maxItems).Draw(t, "items")
+			}
 			rs := ""
 			// A key that holds a published value (the cache was quiescent at the end of the last
 			// round) leaves it and returns to it within the first OnUpdates call of this round.  In
@@ -730,6 +886,12 @@ func TestVerifC24SnapCache(t *testing.T) {
 				c.classes["multi-crumb-round"] = true
 			}
 			c.checkConverged()
+			c.binSnapOutstanding, c.abortedSinceCrumb = false, false
+			if r < rounds {
+				if js := c.binaryJoins(t); js != "" {
+					shape = append(shape, "J"+js)
+				}
+			}
 		}
 		if live {
 			liveCancel()
